@@ -351,8 +351,8 @@ CHECKS["C21"] = dict(
     "attribute names and only namespace prefixes declared in scope (tagOk_iff); tarOk_iff / tarEntry_sound - accepted iff the text is a "
     "positive number of 216-character entries with NUL-padded names, the six octal digits at offset 100 denoting the sum of the header's "
     "character codes with the checksum field blanked, NUL+blank terminator, type flag 0/2, the content marker, and every non-empty link target "
-    "naming another entry; restNumberingOk_iff - every enumeration's items carry numbers with adjacent pairs (a, a+1), a > 0; reST underline / "
-    "link-target checks are direct tree functions. Tie: the real solver runs on the shipped grammar + constraints under a grid of random seeds, "
+    "naming another entry; restNumberingOk_iff - every enumeration's items carry numbers with adjacent pairs (a, a+1), a > 0; restUnderlineOk_iff / "
+    "restLabelsUnique_iff / restRefsDefined_iff - underline at least as long as the (non-empty) title, link targets pairwise distinct, every reference defined. Tie: the real solver runs on the shipped grammar + constraints under a grid of random seeds, "
     "instantiation limits, cost-weight vectors and queue settings, and EVERY generated input is judged by the compiled checker; a rejected "
     "input is a failing input of the property.",
     design_ref="DESIGN.md section 7 C21",
